@@ -128,6 +128,22 @@ __CPROVER_assigns(*{cnt}, *{acc}, *{b}, *temp_b)
 
 
 # ------------------------------------------------------------------------------------------------ header profiles
+# residue of a signed integer, magnitude form (small multi-field element classes after fix F11): valid for EVERY 32-bit product,
+# also those that do not fit the signed argument type.  A = magnitude of a negative e in the unsigned counterpart U of T.
+def c_get_value_mag(P, T):
+    U = "unsigned " + T
+    A = f"(({U})0 - ({U})e)"
+    return f"""
+__CPROVER_requires({P} >= 2)
+__CPROVER_ensures(__CPROVER_return_value < {P})
+__CPROVER_ensures(!(e >= 0 && ({U})e < {P}) || __CPROVER_return_value == (unsigned int)e)
+__CPROVER_ensures(!(e >= 0 && ({U})e >= {P}) || __CPROVER_return_value == (unsigned int)(({U})e % {P}))
+__CPROVER_ensures(!(e < 0 && {A} < {P}) || __CPROVER_return_value == {P} - (unsigned int){A})
+__CPROVER_ensures(!(e < 0 && {A} >= {P}) || __CPROVER_return_value == (({A} % {P}) == 0 ? 0u : {P} - (unsigned int)({A} % {P})))
+__CPROVER_assigns()
+"""
+
+
 class Prof:
     """one header's naming of the duplicated Z_p-style leaf functions"""
 
@@ -242,6 +258,10 @@ def fn_gvs(pr, T, signed=True, name=None):
     """signed: T in (int, long); unsigned: the `else` branch of the if constexpr (element classes)"""
     TMAX = {"int": "2147483647u", "long": "4294967295u"}.get(T)
     tvar = "Signed_integer_type" if pr.key == "zp_ops" else "Integer_type"
+    if signed and pr.key in ("mfs_el", "mfs_sh"):
+        return Fn(pr.path, pr.gvs_sig, name or "get_value_s", c_get_value_mag(pr.P, T), constexpr=[(IS_SIGNED, True)],
+                  subs=[(r"using Unsigned = std::make_unsigned_t<Integer_type>;", f"typedef unsigned {T} Unsigned;")],
+                  canary=(r"a == 0 \? 0 :", "a == 1 ? 0 :"))
     if signed:
         return Fn(pr.path, pr.gvs_sig, name or "get_value_s", c_get_value_s(pr.P, T, TMAX),
                   constexpr=[(IS_SIGNED, True)],
@@ -254,6 +274,9 @@ def fn_gvs(pr, T, signed=True, name=None):
 RUNS_GVS = [Run(only=["*.postcondition.1", "*.postcondition.2", "*.postcondition.3"], backend="sat", timeout=60, label="range+linear"),
             Run(only=["*.postcondition.4"], backend="z3", timeout=90, label="e<-p"),
             Run(only=["*.postcondition.5"], backend="z3", timeout=25, route="R", label="e>=p"),
+            Run(exclude=["*.postcondition.*"], backend="sat", timeout=60, label="safety+frame")]
+RUNS_GVM = [Run(only=["*.postcondition.1"], backend="sat", timeout=120, label="range"),
+            Run(only=["*.postcondition.2", "*.postcondition.3", "*.postcondition.4", "*.postcondition.5"], backend="z3", timeout=120, label="regions"),
             Run(exclude=["*.postcondition.*"], backend="sat", timeout=60, label="safety+frame")]
 RUNS_GVU = [Run(only=["*.postcondition.1"], backend="z3", timeout=60, label="eq"),
             Run(exclude=["*.postcondition.1"], backend="sat", timeout=60, label="rest")]
@@ -459,7 +482,7 @@ def units(tier):
                 td = dict(TD_U)
                 td["Signed_integer_type" if k == "zp_ops" else "Integer_type"] = T
                 U.append(Unit(f"{k}.get_value_{T}", "C10", [fn_gvs(pr, T)], enforce="get_value_s", typedefs=td,
-                              globals_=pr.globals_, inputs=["in_e", pr.P], runs=RUNS_GVS,
+                              globals_=pr.globals_, inputs=["in_e", pr.P], runs=(RUNS_GVM if k in ("mfs_el", "mfs_sh") else RUNS_GVS),
                               replay=mkr(cls, f"get_value_{T}", ["in_e", pr.P]),
                               harness=H(f"  {T} in_e; {pr.P} = nondet_uint();", "get_value_s(in_e);"),
                               desc=f"residue of a signed integer ({T}), negative ones included, one clause per region"))
